@@ -20,6 +20,22 @@ Observation  {"log":[..], "exit":[kind, code], "completed":int|null, "ensure":bo
               "reads":int, "sleeps":int,
               "call":{"onexit":[pid,code]|null, "death":[pid,code]|null, "osexit":int|null, "sleep1":bool}}
 
+   optional "shared_syn": true -- the SYN channel is ONE stream: a job's syn script is appended to
+   whatever earlier jobs left unread (as in a real queue) instead of replacing it.  The
+   observation then also has "syn_use": [[consumer job seq, owner job seq, event kind], ..] for
+   every event read from the SYN channel (not part of the compared trace; judged by monitors).
+
+Handshake case {"kind":"h", "mode":"plain"|"linked"|"dropped", worker cfg fields..., "send_ack":bool,
+              "accept_cb","callback","error_cb":bool, "ins":[ev..]} where a job event carries one more field:
+              ["msg", ty, job, i, t, beh, syn(delay polls), mem, term, cancel(0|1)]
+   The REAL workloop and the REAL ResultHandler/ApplyResult are connected: every message the worker
+   puts is handed to on_state_change at once; one ApplyResult per job id; "cancel" = _cancel() is called
+   before the job's ACK is processed.  mode plain: the worker's SYN queue is what the real
+   Pool.get_process_queues returns and the handles' send_ack is the real Pool.send_ack (if "send_ack");
+   linked: a SYN queue exists and send_ack writes the response into it (what a pool implementing the
+   handshake does); dropped: a SYN queue exists but send_ack's response never arrives.
+Observation  worker observation + "parents": {job: parent observation}, "synq_none": bool
+
 Parent case  {"kind":"p", "job_known":bool, "send_ack":bool, "accept_cb":bool, "callback":bool,
               "error_cb":bool, "evs":[pev..]}
    pev = ["ack", i|null, t, pid, fd|null, cb_raises] | ["ready", i|null, ok, v] | ["cancel"]
@@ -74,17 +90,28 @@ class ScriptedConn:
         self._reader = End(rfd, self)
         self._writer = End(wfd, self)
         self.script = []
+        self.owners = []
         self.pos = 0
         self.cur = None
         self.fetched = False
 
-    def load(self, script):
-        self.script, self.pos, self.cur, self.fetched = script, 0, None, False
+    def load(self, script, owner=None):
+        self.script, self.pos, self.cur, self.fetched = list(script), 0, None, False
+        self.owners = [owner] * len(script)
+
+    def extend(self, script, owner=None):
+        """append to what is still unread (one stream shared by successive jobs)"""
+        self.script = self.script[self.pos:] + list(script)
+        self.owners = self.owners[self.pos:] + [owner] * len(script)
+        self.pos = 0
 
     def fetch(self):
         if self.pos >= len(self.script):
             raise Starved()
         self.cur = self.script[self.pos]
+        if self.name == 'syn':
+            self.st.syn_use.append([self.st.job_seq, self.owners[self.pos], self.cur[0]
+                                    if self.cur[0] != 'msg' else 'msg%s' % (self.cur[1],)])
         self.pos += 1
         self.fetched = True
         return self.cur
@@ -156,6 +183,10 @@ class WState:
         self.log = []
         self.cur_job = None
         self.active = None
+        self.syn_use = []
+        self.job_seq = -1
+        self.shared = bool(case.get('shared_syn')) or case['kind'] == 'h'
+        self.on_job = None
 
     def make_msg(self, name, ev):
         if name == 'syn':
@@ -163,7 +194,13 @@ class WState:
         _, ty, job, i, t, beh, syn, mem = ev[:8]
         term = bool(ev[8]) if len(ev) > 8 else False
         self.cur_job = dict(job=job, i=i, t=t, beh=beh, syn=syn, mem=mem)
-        self.synq_conn.load(syn)
+        self.job_seq += 1
+        if self.shared:
+            self.synq_conn.extend(syn, self.job_seq)
+        else:
+            self.synq_conn.load(syn, self.job_seq)
+        if self.on_job is not None:
+            self.on_job(ev)
         st = self
 
         def fun():
@@ -209,7 +246,7 @@ def canon_result(res):
     return ['other', name]
 
 
-def run_worker(case):
+def run_worker(case, hs=None):
     st = WState(case)
     inq = ScriptedConn(st, 'inq', 1000, case['inqfd'])
     inq.load(case['ins'])
@@ -217,6 +254,8 @@ def run_worker(case):
     if case['synfd'] is not None:
         synq = ScriptedConn(st, 'syn', 1001, case['synfd'])
     st.synq_conn = synq if synq is not None else ScriptedConn(st, 'syn', 0, 0)
+    if hs is not None:
+        synq = hs.attach(st, inq, synq)
 
     class OutQ:
         _reader = End(1002)
@@ -246,6 +285,8 @@ def run_worker(case):
                 st.log.append(['put', ty, job, i, ['readyp', canon_result(res), fd]])
             else:
                 st.log.append(['put', ty, -1, None, ['otherp', repr(args)[:80]]])
+            if hs is not None:
+                hs.on_message(ty, args)      # the parent consumes it at once
 
     counter = Counter(st, case['counter']) if case['counter'] is not None else None
     w = bp.Worker(inq, OutQ, synq, maxtasks=None, sentinel=Sentinel(st),
@@ -388,7 +429,121 @@ def run_worker(case):
     shape_ok = all(e[0] == ('cnt' if n % 2 == 0 else 'sleep') for n, e in enumerate(tail))
     return dict(log=log[:k], exit=ex, completed=seen['completed'], ensure=seen['ensure'], call=call,
                 reads=sum(1 for e in tail if e[0] == 'cnt'),
-                sleeps=sum(1 for e in tail if e[0] == 'sleep') if shape_ok else -1)
+                sleeps=sum(1 for e in tail if e[0] == 'sleep') if shape_ok else -1,
+                syn_use=st.syn_use)
+
+
+# ------------------------------------------------------------------ closed handshake
+class Handshake:
+    """the REAL ResultHandler + one REAL ApplyResult per job id, fed with every message the REAL
+    workloop writes, at once; the handles' send_ack and the worker's SYN queue as the mode says"""
+
+    def __init__(self, case):
+        self.case = case
+        self.cache = {}
+        self.handles = {}
+        self.logs = {}
+        self.cancels = {}
+        self.rs = FakeRestart()
+        self.rh = bp.ResultHandler(None, None, self.cache, None, None, None, self.rs, None, None, None)
+        self.synq_none = None
+
+    def attach(self, st, inq, synq):
+        self.st = st
+        mode = self.case['mode']
+        if mode == 'plain':
+            # what a worker of a plain billiard.Pool is given
+            class Stub:
+                _inqueue, _outqueue = inq, None
+            real = bp.Pool.get_process_queues(Stub())
+            synq = real[2]
+            self.synq_none = synq is None
+            stub = Stub()
+            self.send_ack = (lambda *a: bp.Pool.send_ack(stub, *a)) if self.case['send_ack'] else None
+        else:
+            self.synq_none = synq is None
+
+            def send_ack(resp, pid, job, fd):
+                if mode == 'linked' and synq is not None:
+                    synq.extend([['msg', resp]], st.job_seq)
+            self.send_ack = send_ack if self.case['send_ack'] else None
+        st.on_job = self.on_job
+        return synq
+
+    def on_job(self, ev):
+        """a job message reaches the worker: its handle exists in the parent (created by apply_async
+        before the message was sent); cancelled now if the script says so"""
+        job = ev[2]
+        cancel = bool(ev[9]) if len(ev) > 9 else False
+        if job in self.handles:
+            return
+        log = self.logs.setdefault(job, [])
+        c = self.case
+        ar = bp.ApplyResult(
+            self.cache,
+            (lambda v: log.append(['cb_result', canon_cbvalue(v)])) if c['callback'] else None,
+            (lambda pid, t: log.append(['cb_accept', pid, t])) if c['accept_cb'] else None,
+            error_callback=(lambda v: log.append(['cb_error', canon_cbvalue(v)])) if c['error_cb'] else None,
+            on_timeout_set=lambda r, soft, hard: log.append(['timeout_set']),
+            on_timeout_cancel=lambda r: log.append(['timeout_cancel']),
+            send_ack=self.wrap_send_ack(log))
+        del self.cache[ar._job]
+        ar._job = job
+        self.cache[job] = ar
+        self.handles[job] = ar
+        self.cancels[job] = cancel
+        if cancel:
+            ar._cancel()
+            log.append(['cancelled'])
+
+    def wrap_send_ack(self, log):
+        if self.send_ack is None:
+            return None
+        inner = self.send_ack
+
+        def send_ack(resp, pid, job, fd):
+            log.append(['send_ack', resp, pid, 41, fd])
+            return inner(resp, pid, job, fd)
+        return send_ack
+
+    def on_message(self, ty, args):
+        job = args[0]
+        log = self.logs.setdefault(job, [])
+        if ty == bp.ACK and len(args) == 5:
+            self.rs.R = 7
+            self.rh.on_state_change((ty, args))
+            log.append(['acked', self.rs.R])
+        elif ty == bp.READY and len(args) == 4:
+            self.rh.on_state_change((ty, args))
+            log.append(['readied'])
+
+    def parents(self):
+        out = {}
+        for job, ar in self.handles.items():
+            out[str(job)] = dict(
+                cancel=self.cancels[job], log=self.logs[job], accepted=bool(ar._accepted), pid=ar._worker_pid,
+                time=ar._time_accepted, ready=ar.ready(), in_cache=job in self.cache,
+                pids=list(ar.worker_pids()))
+        return out
+
+
+def canon_cbvalue(v):
+    """what the callbacks get: the value, or the ExceptionInfo of a failure (model: its kind)"""
+    if isinstance(v, int) and not isinstance(v, bool):
+        return v
+    exc = getattr(v, 'exception', None)
+    if exc is not None:
+        r = canon_result((False, v))
+        return r[1] if r[0] in ('fail', 'base') else -1 if r[0] == 'enc' else -998
+    return -999
+
+
+def run_handshake(case):
+    hs = Handshake(case)
+    out = run_worker(case, hs)
+    out['parents'] = hs.parents()
+    out['synq_none'] = hs.synq_none
+    return out
 
 
 # ------------------------------------------------------------------ parent side
@@ -459,7 +614,60 @@ def canon_value(v):
     return v if isinstance(v, int) and not isinstance(v, bool) else -999
 
 
+# ------------------------------------------------------------------ a real pool
+def run_real(case):
+    """a REAL billiard.Pool(1, synack=...) with a real worker process: the only worker is kept busy,
+    a second job is submitted and (if "cancel") cancelled before any worker can accept it"""
+    import signal
+    import time
+    import worker_targets
+    log = []
+    out = dict(error=None)
+
+    def alarm(*a):
+        raise RuntimeError('watchdog: real-pool scenario took more than 40 s')
+    old = signal.signal(signal.SIGALRM, alarm)
+    signal.alarm(40)
+    p = None
+    try:
+        p = bp.Pool(1, synack=bool(case['synack']))
+        w = p._pool[0]._target
+        out['worker_has_syn_queue'] = w.synq is not None
+        r0 = p.apply_async(worker_targets.slow, (0.6,))
+        r1 = p.apply_async(worker_targets.double, (7,),
+                           callback=lambda v: log.append(['cb_result', v]),
+                           accept_callback=lambda pid, t: log.append(['cb_accept', 1 if pid == w_pid() else 0]))
+
+        def w_pid():
+            return p._pool[0].pid
+        if case['cancel']:
+            r1._cancel()
+        out['accepted_at_cancel'] = bool(r1.accepted())
+        try:
+            out['value'] = r1.get(timeout=15)
+        except BaseException as exc:
+            out['value'] = type(exc).__name__
+        r0.wait(5)
+        time.sleep(0.2)
+        out.update(accepted=bool(r1.accepted()), pids=len(r1.worker_pids()), log=log)
+    except BaseException as exc:
+        out['error'] = '%s: %s' % (type(exc).__name__, exc)
+    finally:
+        try:
+            if p is not None:
+                p.terminate()
+        except BaseException as exc:
+            out['error'] = out['error'] or 'terminate: %s' % (exc,)
+        signal.alarm(0)
+        signal.signal(signal.SIGALRM, old)
+    return out
+
+
 def run_case(c):
+    if c['kind'] == 'real':
+        return run_real(c)
+    if c['kind'] == 'h':
+        return run_handshake(c)
     return run_worker(c) if c['kind'] == 'w' else run_parent(c)
 
 
